@@ -83,20 +83,20 @@ def run(ctx):
     g = cg.cfg(cr)
     commits = nodes_calling(g, lambda c: isinstance(c.func, ast.Name) and c.func.id == 'commit')
     # the gate: the test (whatever the flag is called) whose true edge leads to commit() and whose false edge cannot reach it
-    gate = [t for t in g.nodes if t.kind == 'test' and commits
-            and any(cn.id in g.reach([y for y, lab in g.succ[t.id] if lab == 'T']) for cn in commits)
-            and not any(cn.id in g.reach([y for y, lab in g.succ[t.id] if lab == 'F']) for cn in commits)]
+    def to_commit(t, lab_): return any(cn.id in g.reach([y for y, lab in g.succ[t.id] if lab == lab_]) for cn in commits)
+    gate = [t for t in g.nodes if t.kind == 'test' and commits and to_commit(t, 'T') != to_commit(t, 'F')]          # `if can_commit:` or `if not can_commit: ...; return`
+    commit_edge = {t.id: ('T' if to_commit(t, 'T') else 'F') for t in gate}
     ctx.floor('C18-GATE', len(commits), 1, 'commit() sites in _commit_or_rollback')
     ctx.floor('C18-GATE', len(gate), 1, 'tests that decide between commit and rollback')
     gate_ids = {t.id for t in gate}
-    r = g.reach([g.entry], edge_ok=lambda x, y, lab: not (x in gate_ids and lab == 'T'))
+    r = g.reach([g.entry], edge_ok=lambda x, y, lab: not (x in gate_ids and lab == commit_edge[x]))
     for cn in commits:
         ok = cn.id not in r
         ctx.ob('C18-GATE.commit-only-if-can_commit', cr, cn.ast, ok,
                '' if ok else 'commit() reachable without passing the true edge of the deciding test', node=cn.ast)
     rb = nodes_calling(g, lambda c: isinstance(c.func, ast.Name) and c.func.id == 'rollback')
     for t in gate:
-        fs = [y for y, lab in g.succ[t.id] if lab == 'F']
+        fs = [y for y, lab in g.succ[t.id] if lab in ('T', 'F') and lab != commit_edge[t.id]]
         rr = g.reach(fs, avoid=rb)
         ok = bool(rb) and g.exit.id not in rr and g.raise_.id not in rr
         ctx.ob('C18-GATE.else-rolls-back', cr, t.stmt, ok,
@@ -159,10 +159,16 @@ def run(ctx):
     dec = [n for n in g.nodes if n.kind == 'stmt' and isinstance(n.ast, ast.AugAssign) and isinstance(n.ast.op, ast.Sub)
            and dotted(n.ast.target) == 'local.db_context_counter']
     calls = nodes_calling(g, lambda c: is_call_to(c, exit_fn.recv, '_commit_or_rollback'))
-    tests = {t.id for t in g.nodes if t.kind == 'test' and norm(t.ast) == 'not local.db_context_counter'}
     ctx.floor('C18-NEST', len(calls), 1, '_commit_or_rollback call in __exit__')
+    from ..typestate import scenario_edges
+    # scenario "still inside an outer db_session" (the counter is not zero after the decrement): the commit-or-rollback decision is unreachable
+    def nested_atom(text, node):
+        if text == 'local.db_context_counter': return True
+        if text.replace(' ', '') in ('local.db_context_counter==0', 'local.db_context_counter<=0', 'local.db_context_counter<1'): return False
+        if text.replace(' ', '') in ('local.db_context_counter!=0', 'local.db_context_counter>0', 'local.db_context_counter>=1'): return True
+        return None
     for cn in calls:
-        rr = g.reach([g.entry], edge_ok=lambda x, y, lab: not (x in tests and lab == 'T'))
+        rr = g.reach([g.entry], edge_ok=scenario_edges(g, exit_fn.node, nested_atom, resolve=False))
         ok = bool(dec) and g.dominated(cn, dec) and cn.id not in rr
         ctx.ob('C18-NEST.commit-only-at-outermost-exit', exit_fn, cn.ast, ok,
                '' if ok else '_commit_or_rollback not guarded by counter decrement + `not local.db_context_counter`', node=cn.ast)
